@@ -1079,7 +1079,7 @@ func init() {
 			expected:    []string{"offset==WindowSize-1", "matchlen==MaxMatchLen"}},
 		types: gen.ParserTypes, quickN: 12000, thorMul: 40, corpusN: 300, large: true,
 		weights: HWeights{Write: 18, ReadFrom: 8, Parse: 30, ParseNTL: 10, ParseNil: 6, Shrink: 14, Reset: 1, ResetData: 2, WParse: 8, Faults: true},
-		scale:   []string{"manyseq", "longtail", "noiserun", "longmatch", "ntlburst", "hugeblock", "noisecopy"},
+		scale:   []string{"manyseq", "longtail", "noiserun", "longmatch", "ntlburst", "hugeblock", "noisecopy", "maxwindow", "maxwindow", "maxwindow", "maxwindow", "maxwindow"},
 		tweak: func(r *rand.Rand, pc *PCase, kind string) {
 			// windows smaller than the data so that the guard is under load
 			if r.Intn(2) == 0 {
